@@ -62,7 +62,8 @@ Controlled ==
         \/ /\ held[s] /\ held' = [held EXCEPT ![s] = FALSE] /\ hist' = Append(hist, H("Release", s, 0, 0))
            /\ UNCHANGED vars
         \/ WorkCall(s) /\ hist' = Append(hist, H("Deliver", s, 0, item[s])) /\ held' = held
-        \/ \E k \in Faults : Fault(s, k) /\ hist' = Append(hist, H(k, s, 0, 0)) /\ held' = held
+        \/ \E k \in Faults \ {"resume"} : Fault(s, k) /\ hist' = Append(hist, H(k, s, 0, 0)) /\ held' = held
+        \/ Resume(s) /\ hist' = Append(hist, H("resume", s, 0, 0)) /\ held' = held
 
 Terminal == ~EagerEnabled /\ ~ENABLED Controlled
 
